@@ -63,6 +63,7 @@ type Job struct {
 	JSONLens        []int
 	Stubs           map[string]interceptFn
 	OneShot         bool // non-incremental solving (floating point)
+	DiffSamples     int // number of passing paths whose models are replayed natively (must pass there too)
 	ReplayInstr     []SrcInsert // textual insertions into copies of repository files for the native replay
 	ReplayTest      string   // native test (in the harness dir's *_test.go files) that replays a model of this job
 	CutCalls        []string // calls to functions whose name ends with one of these end the path as outside the unit
@@ -92,6 +93,7 @@ type JobResult struct {
 	MaxTermSize  int
 	CrossIssues  []string
 	Funcs        map[string]bool
+	OkModels     []string // inputs (JSON) of some passing paths, for the native differential run
 }
 
 func (j *Job) defaults() {
@@ -118,6 +120,9 @@ func (j *Job) defaults() {
 	}
 	if j.Workers == 0 {
 		j.Workers = 4
+	}
+	if j.DiffSamples == 0 {
+		j.DiffSamples = 2
 	}
 	j.res = JobResult{Outcomes: map[string]int{}, Inconclusive: map[string]int{}, Truncated: map[string]int{}, Covers: map[string]bool{},
 		AssertSites: map[string]int{}, UnknownAsserts: map[string]int{}, Notes: map[string]int{}, Funcs: map[string]bool{}}
@@ -337,6 +342,15 @@ func runPath(prog *ssa.Program, j *Job, ctx *Ctx, sol *Solver, cache *SatCache, 
 	}
 	for f := range it.funcs {
 		j.res.Funcs[f] = true
+	}
+	if outcome == "ok" && len(it.violations) == 0 && j.Entry != "" && j.Run == nil && len(it.inputs) > 0 && len(j.res.OkModels) < j.DiffSamples && (j.res.Paths%5 == 1 || j.res.Paths < 4) {
+		// a model of this passing path, to be replayed natively (translator validation)
+		j.mu.Unlock()
+		r, m := sol.Check(true)
+		j.mu.Lock()
+		if r == "sat" && len(j.res.OkModels) < j.DiffSamples {
+			j.res.OkModels = append(j.res.OkModels, it.inputsJSON(m))
+		}
 	}
 	j.res.Queries += it.nQueries
 	j.res.Steps += int64(it.steps)
